@@ -254,13 +254,32 @@ impl Replayer {
                                 self.warm_chain = Vec::new();
                             }
                         }
-                        let made = match pooled {
+                        let mut made = match pooled {
                             Some(mut c) => {
                                 c.finish();
                                 Ok(c)
                             }
                             None => Ctx::new(&cfg, &home),
                         };
+                        if warm_run && cfg.is_phonetic() {
+                            // "any number of other words": the warm context composes one more never-seen word before every scenario
+                            if let Ok(c) = made.as_mut() {
+                                self.noise_rng.next();
+                                let len = 3 + self.noise_rng.below(6);
+                                let w: String = (0..len).map(|_| (b'a' + self.noise_rng.below(26) as u8) as char).collect();
+                                for ch in w.chars() {
+                                    let o = c.key(self.keys.code_for_char(ch).unwrap(), 0, 0);
+                                    self.rep.events += 1;
+                                    if o.kind == "panic" {
+                                        pending.push(("panic".to_string(), format!("warm context panicked while typing {:?}: {}", w, o.panic.unwrap_or_default()), case(json!({"noise": w}))));
+                                        return false;
+                                    }
+                                }
+                                c.finish();
+                                self.warm_chain.push(json!({"op": "type", "text": w}));
+                                self.warm_chain.push(json!({"op": "finish"}));
+                            }
+                        }
                         match made {
                             Ok(c) => {
                                 ctx = Some(c);
